@@ -176,6 +176,21 @@ def check(env, rep, tier):
                            "cache key field `%s` is not its request datum carried unchanged (origin %s, expected %s; passes through %s): "
                            "distinct transfers can collide on one state" % (fname, src, want, bad or "-"), site,
                            sample={"rule": "C12.2", "field": fname, "origin": src, "steps": [st_[1] for st_ in steps if st_[0] == "call"]})
+            # ... and the segment vector is not edited on the way (more elements appended - e.g. the query arguments, with nothing
+            # telling them from path segments -, elements removed, reordered): no call in the key construction takes it by &mut
+            edits = []
+            for bb in kb["blocks"]:
+                t = bb["term"]
+                if t["k"] != "call" or bb.get("cleanup"):
+                    continue
+                for a_ in t["args"][:1]:
+                    if a_["k"] in ("copy", "move") and not a_["place"]["p"]:
+                        ts_ = prog.types[kb["locals"][a_["place"]["l"]]["ty"]]["s"]
+                        if ts_.startswith("&mut alloc::vec::Vec<alloc::string::String"):
+                            edits.append((t.get("resolved") or t.get("callee") or {}).get("path", "?"))
+            rep.ob("C12.2", "path-segments-not-edited", not edits,
+                   "the path segments of the cache key are modified after they were taken from the request (%s): /a?b and /a/b (or other pairs of "
+                   "different resources) can share one transfer state" % sorted(set(edits))[:3], site)
             a = prog.adts.get("block_handler::RequestCacheKey")
             rep.ob("C12.2", "three-fields", a is not None and len(a["variants"][0]["fields"]) == 3,
                    "RequestCacheKey no longer has the three fields (method, path segments, requester)")
